@@ -68,6 +68,92 @@ Definition dy_of_bits (b : Z) : option dy :=
   Some (dnorm (if Z.eqb s 1 then (- m)%Z else m) e).
 
 Inductive aop := OAdd | OSub | OMul | ODiv.
+
+(* IEEE-754 binary32: bit pattern -> dyadic, and the correctly rounded (nearest-even) bit pattern of a dyadic
+   in the normal range (None outside it).  -0 and +0 are identified (bit pattern 0), as for f64. *)
+Definition dy_of_bits32 (b : Z) : option dy :=
+  if orb (Z.ltb b 0) (Z.leb (2 ^ 32) b) then None else
+  let s := (b / 2 ^ 31)%Z in
+  let ex := ((b / 2 ^ 23) mod 2 ^ 8)%Z in
+  let fr := (b mod 2 ^ 23)%Z in
+  if Z.eqb ex 255 then None else
+  let m := if Z.eqb ex 0 then fr else (fr + 2 ^ 23)%Z in
+  let e := if Z.eqb ex 0 then (-149)%Z else (ex - 150)%Z in
+  Some (dnorm (if Z.eqb s 1 then (- m)%Z else m) e).
+
+Definition bits32_of_dy (a : dy) : option Z :=
+  let '(m, e) := a in
+  if Z.eqb m 0 then Some 0%Z else
+  let am := Z.abs m in
+  let n := (Z.log2 am + 1)%Z in
+  let '(m1, e1) :=
+    if Z.leb n 24 then (am, e) else
+      let sh := (n - 24)%Z in
+      let qq := (am / 2 ^ sh)%Z in
+      let rem := (am mod 2 ^ sh)%Z in
+      let half := (2 ^ (sh - 1))%Z in
+      let q1 := if orb (Z.ltb half rem) (andb (Z.eqb rem half) (Z.odd qq)) then (qq + 1)%Z else qq in
+      dnorm q1 (e + sh)%Z in
+  let n1 := (Z.log2 m1 + 1)%Z in
+  let E := (e1 + n1 - 1 + 127)%Z in
+  if orb (Z.leb E 0) (Z.leb 255 E) then None else
+  Some ((if Z.ltb m 0 then 2 ^ 31 else 0) + E * 2 ^ 23 + (m1 * 2 ^ (24 - n1) - 2 ^ 23))%Z.
+
+(* the integer kinds and their ranges *)
+Definition int_range (k : string) : option (Z * Z) :=
+  if String.eqb k "u8" then Some (0, 2 ^ 8 - 1)%Z else
+  if String.eqb k "u16" then Some (0, 2 ^ 16 - 1)%Z else
+  if String.eqb k "u32" then Some (0, 2 ^ 32 - 1)%Z else
+  if String.eqb k "u64" then Some (0, 2 ^ 64 - 1)%Z else
+  if String.eqb k "u128" then Some (0, 2 ^ 128 - 1)%Z else
+  if String.eqb k "i8" then Some (- 2 ^ 7, 2 ^ 7 - 1)%Z else
+  if String.eqb k "i16" then Some (- 2 ^ 15, 2 ^ 15 - 1)%Z else
+  if String.eqb k "i32" then Some (- 2 ^ 31, 2 ^ 31 - 1)%Z else
+  if String.eqb k "i64" then Some (- 2 ^ 63, 2 ^ 63 - 1)%Z else
+  if String.eqb k "i128" then Some (- 2 ^ 127, 2 ^ 127 - 1)%Z else None.
+
+(* one element of an op-assignment on payloads of kind k: None = the kernel panics there (integer overflow,
+   division by zero; the harness build has overflow checks on) or the kind has no such kernel *)
+Definition kop (k : string) (o : aop) (x y : sx) : option sx :=
+  match x, y with
+  | Zx a, Zx b =>
+      match int_range k with
+      | Some (lo, hi) =>
+          let r := match o with
+                   | OAdd => Some (a + b)%Z | OSub => Some (a - b)%Z | OMul => Some (a * b)%Z
+                   | ODiv => if Z.eqb b 0 then None else Some (Z.quot a b)
+                   end in
+          match r with
+          | Some z => if andb (Z.leb lo z) (Z.leb z hi) then Some (Zx z) else None
+          | None => None
+          end
+      | None =>
+          if String.eqb k "f32" then
+            match dy_of_bits32 a, dy_of_bits32 b with
+            | Some da, Some db =>
+                match o with
+                | ODiv => if dy_pow2 db then option_map Zx (bits32_of_dy (ddiv da db)) else None
+                | OAdd => option_map Zx (bits32_of_dy (dadd da db))
+                | OSub => option_map Zx (bits32_of_dy (dsub da db))
+                | OMul => option_map Zx (bits32_of_dy (dmul da db))
+                end
+            | _, _ => None
+            end
+          else None
+      end
+  | _, _ => None
+  end.
+
+(* sink.iter_mut().zip(source.iter()) with a kernel that may panic: (elements after the loop, completed?, written) *)
+Fixpoint kops (k : string) (o : aop) (a b : list sx) : list sx * bool * nat :=
+  match a, b with
+  | x :: a', y :: b' =>
+      match kop k o x y with
+      | Some z => let '(r, ok, n) := kops k o a' b' in (z :: r, ok, S n)
+      | None => (a, false, O)
+      end
+  | _, _ => (a, true, O)
+  end.
 Definition dop (o : aop) : dy -> dy -> dy :=
   match o with OAdd => dadd | OSub => dsub | OMul => dmul | ODiv => ddiv end.
 
@@ -77,7 +163,8 @@ Definition dop (o : aop) : dy -> dy -> dy :=
 Inductive atom :=
 | ANum (x : dy)
 | AMat (r c : nat) (d : list dy)            (* column-major *)
-| AVar (x : string).
+| AVar (x : string)
+| AK (k : string) (sh : option (nat * nat)) (l : list sx).  (* 5<u8>, [1<u8> 2<u8>]: kind, shape, payloads as printed *)
 
 Inductive expr :=
 | ENum (x : dy)                                (* 2.5 *)
@@ -86,13 +173,20 @@ Inductive expr :=
 | ETab (cols : list (string * list dy))        (* | x<f64> y<f64> | 1 2 | 3 4 | *)
 | ETup (l : list atom)                         (* (1, a, [1 2]) *)
 | ERec (l : list (string * atom))              (* {x: 1, y: a} *)
-| EVar (x : string).                           (* a *)
+| EVar (x : string)                            (* a *)
+| EK (k : string) (sh : option (nat * nat)) (l : list sx)   (* a scalar (sh = None) or matrix of a kind other than f64:
+                                                  5<u8>, x<u8> := 5, m<[u8]:1,3> := [1 2 3], true, "s"; payloads as the
+                                                  harness prints them (integers, f32 bit patterns, 0/1, quoted strings) *)
+| EOpq (x : sx).                               (* any other literal, by the canonical form of its value (typed tables and sets) *)
+
+(* the scalar of an indexed assignment: an f64 or a payload of another kind *)
+Inductive scal := SF (d : dy) | SK (k : string) (p : sx).
 
 Inductive stmt :=
 | SDef (mu : bool) (x : string) (e : expr)     (* x := e   /  ~x := e *)
 | SAssign (x : string) (e : expr)              (* x = e *)
-| SIdx1 (x : string) (i : Z) (s : dy)          (* x[i] = s *)
-| SIdx2 (x : string) (i j : Z) (s : dy)        (* x[i,j] = s *)
+| SIdx1 (x : string) (i : Z) (s : scal)        (* x[i] = s *)
+| SIdx2 (x : string) (i j : Z) (s : scal)      (* x[i,j] = s *)
 | SOp (x : string) (o : aop) (e : expr)        (* x += e ... *)
 | SField (x : string) (f : string) (e : expr)  (* x.f = e  (record field, table column) *)
 | STix (x : string) (k : Z) (e : expr)         (* x.k = e  (tuple element) *)
@@ -114,7 +208,22 @@ Inductive dv :=
 | DSet (l : list dy)
 | DTab (cols : list (string * list dy))
 | DTup (l : list dv)
-| DRec (l : list (string * dv)).
+| DRec (l : list (string * dv))
+| DK (k : string) (sh : option (nat * nat)) (l : list sx)   (* scalar / matrix of another kind, payloads as printed *)
+| DOpq (x : sx).                                           (* anything else, by its canonical form *)
+
+Fixpoint sxl_eqb (a b : list sx) : bool :=
+  match a, b with
+  | [], [] => true
+  | x :: a', y :: b' => andb (sx_eqb x y) (sxl_eqb a' b')
+  | _, _ => false
+  end.
+Definition shape_eqb (a b : option (nat * nat)) : bool :=
+  match a, b with
+  | None, None => true
+  | Some (r, c), Some (r', c') => andb (Nat.eqb r r') (Nat.eqb c c')
+  | _, _ => false
+  end.
 
 Fixpoint dys_eqb (a b : list dy) : bool :=
   match a, b with
@@ -150,6 +259,8 @@ Fixpoint dv_eqb (a b : dv) : bool :=
          | (n, a) :: x', (n', b) :: y' => andb (andb (String.eqb n n') (dv_eqb a b)) (go x' y')
          | _, _ => false
          end) l l'
+  | DK k sh l, DK k' sh' l' => andb (andb (String.eqb k k') (shape_eqb sh sh')) (sxl_eqb l l')
+  | DOpq x, DOpq y => sx_eqb x y
   | _, _ => false
   end.
 
@@ -186,6 +297,7 @@ Definition aeval (T : tab) (a : atom) : option dv :=
   | ANum x => Some (DNum x)
   | AMat r c d => Some (DMat r c d)
   | AVar x => option_map snd (find x T)
+  | AK k sh l => Some (DK k sh l)
   end.
 
 Definition seval (T : tab) (e : expr) : option dv :=
@@ -197,6 +309,8 @@ Definition seval (T : tab) (e : expr) : option dv :=
   | ETup l => option_map DTup (map_opt (aeval T) l)
   | ERec l => option_map DRec (map_opt (fun p => option_map (pair (fst p)) (aeval T (snd p))) l)
   | EVar x => option_map snd (find x T)
+  | EK k sh l => Some (DK k sh l)
+  | EOpq x => Some (DOpq x)
   end.
 
 Fixpoint destr_rowsb (xs : list string) (l : list dv) (T' : tab) : bool :=
@@ -359,6 +473,7 @@ Definition eval_atom (cf : cfg) (st : store) (a : atom) : option (value * store)
       | Some (_, v, _) => if c_atom_copy cf then Some (copyv st v) else Some (VRef v, st)
       | None => None
       end
+  | AK k sh l => let '(c, st') := alloc (DK k sh l) st in Some (VC c, st')
   end.
 
 Fixpoint eval_atoms (cf : cfg) (st : store) (l : list atom) : option (list value * store) :=
@@ -398,6 +513,8 @@ Definition eval_expr (cf : cfg) (st : store) (e : expr) : option (value * store 
       | Some (_, v, _) => Some (VRef v, st, BDefVar)
       | None => None
       end
+  | EK k sh l => let '(c, st') := alloc (DK k sh l) st in Some (VC c, st', BFresh)
+  | EOpq x => let '(c, st') := alloc (DOpq x) st in Some (VC c, st', BFresh)
   end.
 
 (* ---- kernels: result = refused | done (cell written, new cells) | failed after writing ---- *)
@@ -424,7 +541,16 @@ Fixpoint zipw (f : dy -> dy -> dy) (a b : list dy) : list dy :=
   | _, _ => a
   end.
 
-(* x = e : AssignValue (stdlib/assign/mod.rs): same scalar kind, or matrices of the same form *)
+(* two scalars, or two matrices of the same storage form *)
+Definition shape_compat (a b : option (nat * nat)) : bool :=
+  match a, b with
+  | None, None => true
+  | Some (r, c), Some (r', c') => Nat.eqb (mform r c) (mform r' c')
+  | _, _ => false
+  end.
+
+(* x = e : AssignValue (stdlib/assign/mod.rs): same scalar kind, or matrices of the same form and kind
+   (no kernel is registered for i128) *)
 Definition k_assign (cs : list (nat * dv)) (sink src : value) : kres :=
   match deref1 sink, deref1 src with
   | VC a, VC b =>
@@ -432,37 +558,49 @@ Definition k_assign (cs : list (nat * dv)) (sink src : value) : kres :=
       | DNum _, DNum y => KOk a (write a (DNum y) cs)
       | DMat r c _, DMat r' c' d' =>
           if Nat.eqb (mform r c) (mform r' c') then KOk a (write a (DMat r' c' d') cs) else KErr
+      | DK k sh _, DK k' sh' l' =>
+          if andb (andb (String.eqb k k') (negb (String.eqb k "i128"))) (shape_compat sh sh')
+          then KOk a (write a (DK k' sh' l') cs) else KErr
       | _, _ => KErr
       end
   | _, _ => KErr
   end.
 
 (* x[i] = s, x[i,j] = s : MatrixAssignScalar / MatrixAssignScalarScalar; out of range panics before writing *)
-Definition k_idx (cs : list (nat * dv)) (sink : value) (lin : dv -> option nat) (s : dy) : kres :=
+Definition k_idx (cs : list (nat * dv)) (sink : value) (lin : dv -> option nat) (s : scal) : kres :=
   match deref1 sink with
   | VC a =>
-      match get a cs with
-      | DMat r c d =>
+      match get a cs, s with
+      | DMat r c d, SF y =>
           match lin (DMat r c d) with
-          | Some n => KOk a (write a (DMat r c (set_nth n s d)) cs)
+          | Some n => KOk a (write a (DMat r c (set_nth n y d)) cs)
           | None => KErr
           end
-      | _ => KErr
+      | DK k (Some (r, c)) l, SK k' p =>
+          if String.eqb k k' then
+            match lin (DK k (Some (r, c)) l) with
+            | Some n => KOk a (write a (DK k (Some (r, c)) (set_nth n p l)) cs)
+            | None => KErr
+            end
+          else KErr
+      | _, _ => KErr
       end
   | _ => KErr
   end.
 
+Definition dims (m : dv) : option (nat * nat) :=
+  match m with DMat r c _ => Some (r, c) | DK _ (Some (r, c)) _ => Some (r, c) | _ => None end.
 Definition lin1 (i : Z) (m : dv) : option nat :=
-  match m with
-  | DMat r c _ => if andb (Z.leb 1 i) (Z.leb i (Z.of_nat (r * c))) then Some (Z.to_nat (i - 1)) else None
-  | _ => None
+  match dims m with
+  | Some (r, c) => if andb (Z.leb 1 i) (Z.leb i (Z.of_nat (r * c))) then Some (Z.to_nat (i - 1)) else None
+  | None => None
   end.
 Definition lin2 (i j : Z) (m : dv) : option nat :=
-  match m with
-  | DMat r c _ =>
+  match dims m with
+  | Some (r, c) =>
       if andb (andb (Z.leb 1 i) (Z.leb i (Z.of_nat r))) (andb (Z.leb 1 j) (Z.leb j (Z.of_nat c)))
       then Some (Z.to_nat (j - 1) * r + Z.to_nat (i - 1)) else None
-  | _ => None
+  | None => None
   end.
 
 Fixpoint scalar_fields (cs : list (nat * dv)) (l : list (string * value)) : option (list (string * dy)) :=
@@ -505,6 +643,33 @@ Definition k_op (cs : list (nat * dv)) (o : aop) (sink src : value) : kres :=
               match append_row cols nums with Some cols' => KOk a (write a (DTab cols') cs) | None => KErr end
           | _, _ => KErr
           end
+      | DK k sh l, VC b =>
+          (* integer kinds (not i128) and f32, element by element in storage order: a panic at the first element
+             leaves the sink alone, a later one leaves the elements before it written *)
+          match get b cs with
+          | DK k' sh' l' =>
+              if andb (andb (String.eqb k k') (negb (String.eqb k "i128")))
+                      (orb (match int_range k with Some _ => true | None => false end) (String.eqb k "f32")) then
+                match sh, sh', l' with
+                | None, None, _ | Some _, Some _, _ =>
+                    if shape_compat sh sh' then
+                      match kops k o l l' with
+                      | (r, true, _) => KOk a (write a (DK k sh r) cs)
+                      | (_, false, O) => KErr
+                      | (r, false, S _) => KPartial a (write a (DK k sh r) cs)
+                      end
+                    else KErr
+                | Some _, None, [y] =>
+                    match kops k o l (repeat y (List.length l)) with
+                    | (r, true, _) => KOk a (write a (DK k sh r) cs)
+                    | (_, false, O) => KErr
+                    | (r, false, S _) => KPartial a (write a (DK k sh r) cs)
+                    end
+                | _, _, _ => KErr
+                end
+              else KErr
+          | _ => KErr
+          end
       | _, _ => KErr
       end
   | _ => KErr
@@ -525,6 +690,7 @@ Definition k_field (cf : cfg) (cs : list (nat * dv)) (sink : value) (f : string)
       | Some (VC a), VC b =>
           match get a cs, get b cs with
           | DNum _, DNum y => KOk a (write a (DNum y) cs)
+          | DK k None _, DK k' None l' => if String.eqb k k' then KOk a (write a (DK k' None l') cs) else KErr
           | _, _ => KErr
           end
       | _, _ => KErr
@@ -556,6 +722,10 @@ Definition k_tix (cs : list (nat * dv)) (sink : value) (k : Z) (src : value) : k
       | Some (VC a), VC b =>
           match get a cs, get b cs with
           | DNum _, DNum y => KOk a (write a (DNum y) cs)
+          | DK k None _, DK k' None l' =>
+              (* TupleAssignScalar is only instantiated for f64, i64, bool and string *)
+              if andb (String.eqb k k') (orb (orb (String.eqb k "i64") (String.eqb k "bool")) (String.eqb k "string"))
+              then KOk a (write a (DK k' None l') cs) else KErr
           | _, _ => KErr
           end
       | _, _ => KErr
@@ -672,7 +842,7 @@ Fixpoint impl_trace (cf : cfg) (st : store) (h : list stmt) : list tstep :=
   | s :: r => let '(s1, ok) := exec_st cf st s in (s, ok, snap_tab s1) :: impl_trace cf s1 r
   end.
 
-(* did the statement fail AFTER writing (the over-long table column)? *)
+(* did the statement fail AFTER writing (the over-long table column, an integer op-assignment that panics midway)? *)
 Definition is_partial (r : store * bool * option nat) : bool :=
   match r with (_, false, Some _) => true | _ => false end.
 Fixpoint no_partial (cf : cfg) (st : store) (h : list stmt) : bool :=
@@ -700,7 +870,7 @@ Definition classify (cf : cfg) (st : store) (s : stmt) : option string :=
       match w with
       | None => None
       | Some c =>
-          if negb ok then Some "table-column-partial" else
+          if negb ok then (match s with SOp _ _ _ => Some "int-op-partial" | _ => Some "table-column-partial" end) else
           match assign_target s with
           | None => None
           | Some x =>
@@ -729,8 +899,28 @@ Definition dec_mat (r c d : sx) : option (nat * nat * list dy) :=
   | _, _, _ => None
   end.
 
+Definition dec_shape (r c : sx) : option (nat * nat) :=
+  match dec_nat r, dec_nat c with
+  | Some r', Some c' => if andb (Nat.leb 1 r') (Nat.leb 1 c') then Some (r', c') else None
+  | _, _ => None
+  end.
+(* -0.0 and +0.0 of f32 are identified, as the dyadic decoding does for f64 *)
+Definition canon_payload (k : string) (p : sx) : sx :=
+  match p with
+  | Zx b => if andb (String.eqb k "f32") (Z.eqb b (2 ^ 31)) then Zx 0 else p
+  | _ => p
+  end.
+Definition is_f64 (k : string) : bool := String.eqb k "f64".
+
 Definition dec_atom (x : sx) : option atom :=
   match x with
+  | Lx [Ax "ks"; Ax k; p] => if is_f64 k then None else Some (AK k None [canon_payload k p])
+  | Lx [Ax "km"; Ax k; r; c; Lx l] =>
+      if is_f64 k then None else
+      match dec_shape r c with
+      | Some (r', c') => if Nat.eqb (List.length l) (r' * c') then Some (AK k (Some (r', c')) (map (canon_payload k) l)) else None
+      | None => None
+      end
   | Lx [Ax "num"; b] => option_map ANum (dec_num b)
   | Lx [Ax "mat"; r; c; d] => option_map (fun t => match t with (r', c', d') => AMat r' c' d' end) (dec_mat r c d)
   | Lx [Ax "var"; n] => option_map AVar (sx_str n)
@@ -751,6 +941,14 @@ Definition dec_fld (x : sx) : option (string * atom) :=
 
 Definition dec_expr (x : sx) : option expr :=
   match x with
+  | Lx [Ax "ks"; Ax k; p] => if is_f64 k then None else Some (EK k None [canon_payload k p])
+  | Lx [Ax "km"; Ax k; r; c; Lx l] =>
+      if is_f64 k then None else
+      match dec_shape r c with
+      | Some (r', c') => if Nat.eqb (List.length l) (r' * c') then Some (EK k (Some (r', c')) (map (canon_payload k) l)) else None
+      | None => None
+      end
+  | Lx [Ax "opq"; v] => Some (EOpq v)
   | Lx [Ax "num"; b] => option_map ENum (dec_num b)
   | Lx [Ax "mat"; r; c; d] => option_map (fun t => match t with (r', c', d') => EMat r' c' d' end) (dec_mat r c d)
   | Lx [Ax "set"; d] => option_map ESet (dec_nums d)
@@ -767,6 +965,12 @@ Definition dec_op (x : sx) : option aop :=
   | _ => None
   end.
 
+Definition dec_scal (x : sx) : option scal :=
+  match x with
+  | Lx [Ax "ks"; Ax k; p] => if is_f64 k then None else Some (SK k (canon_payload k p))
+  | _ => option_map SF (dec_num x)
+  end.
+
 Definition dec_stmt (x : sx) : option stmt :=
   match x with
   | Lx [Ax "def"; Zx mu; n; e] =>
@@ -774,9 +978,9 @@ Definition dec_stmt (x : sx) : option stmt :=
   | Lx [Ax "asg"; n; e] =>
       match sx_str n, dec_expr e with Some n', Some e' => Some (SAssign n' e') | _, _ => None end
   | Lx [Ax "ix1"; n; Zx i; s] =>
-      match sx_str n, dec_num s with Some n', Some s' => Some (SIdx1 n' i s') | _, _ => None end
+      match sx_str n, dec_scal s with Some n', Some s' => Some (SIdx1 n' i s') | _, _ => None end
   | Lx [Ax "ix2"; n; Zx i; Zx j; s] =>
-      match sx_str n, dec_num s with Some n', Some s' => Some (SIdx2 n' i j s') | _, _ => None end
+      match sx_str n, dec_scal s with Some n', Some s' => Some (SIdx2 n' i j s') | _, _ => None end
   | Lx [Ax "op"; n; o; e] =>
       match sx_str n, dec_op o, dec_expr e with
       | Some n', Some ODiv, Some (ENum y) => if dy_pow2 y then Some (SOp n' ODiv (ENum y)) else None
@@ -793,7 +997,20 @@ Definition dec_stmt (x : sx) : option stmt :=
   | _ => None
   end.
 
-(* observed values (grammar of harness/src/canon.rs), f64 only *)
+(* observed values (grammar of harness/src/canon.rs): f64 scalars, matrices, sets and tables structurally,
+   scalars and matrices of the other kinds by their payloads, everything else by its canonical form *)
+Definition f64_elems (l : list sx) : option (list dy) :=
+  map_opt (fun y => match y with Lx [Ax "s"; Ax "f64"; b] => dec_num b | _ => None end) l.
+Definition f64_cols (cols : list sx) : option (list (string * list dy)) :=
+  map_opt (fun y =>
+    match y with
+    | Lx [n; _; Lx l] => match sx_str n, f64_elems l with Some n', Some d => Some (n', d) | _, _ => None end
+    | _ => None
+    end) cols.
+Definition all_f64 (l : list sx) : bool :=
+  forallb (fun y => match y with Lx [Ax "s"; Ax "f64"; _] => true | _ => false end) l.
+Definition cols_f64 (cols : list sx) : bool :=
+  forallb (fun y => match y with Lx [_; _; Lx l] => all_f64 l | _ => false end) cols.
 Fixpoint dec_dv (fuel : nat) (x : sx) : option dv :=
   match fuel with
   | O => None
@@ -805,18 +1022,14 @@ Fixpoint dec_dv (fuel : nat) (x : sx) : option dv :=
           | Some r', Some c', Some d' => Some (DMat r' c' d')
           | _, _, _ => None
           end
-      | Lx [Ax "set"; _; _; Lx l] =>
-          option_map DSet (map_opt (fun y => match y with Lx [Ax "s"; Ax "f64"; b] => dec_num b | _ => None end) l)
-      | Lx (Ax "table" :: _ :: cols) =>
-          option_map DTab (map_opt (fun y =>
-            match y with
-            | Lx [n; _; Lx l] =>
-                match sx_str n, map_opt (fun z => match z with Lx [Ax "s"; Ax "f64"; b] => dec_num b | _ => None end) l with
-                | Some n', Some d => Some (n', d)
-                | _, _ => None
-                end
-            | _ => None
-            end) cols)
+      | Lx [Ax "s"; Ax k; p] => Some (DK k None [canon_payload k p])
+      | Lx [Ax "m"; Ax k; r; c; Lx l] =>
+          match dec_nat r, dec_nat c with
+          | Some r', Some c' => Some (DK k (Some (r', c')) (map (canon_payload k) l))
+          | _, _ => None
+          end
+      | Lx [Ax "set"; _; _; Lx l] => if all_f64 l then option_map DSet (f64_elems l) else Some (DOpq x)
+      | Lx (Ax "table" :: _ :: cols) => if cols_f64 cols then option_map DTab (f64_cols cols) else Some (DOpq x)
       | Lx (Ax "tuple" :: l) => option_map DTup (map_opt (dec_dv fu) l)
       | Lx (Ax "record" :: l) =>
           option_map DRec (map_opt (fun y =>
